@@ -1,5 +1,5 @@
 (* C03/Driver.v — entry points for the correspondence run (sites L, G, S, J of harness/src/bin/c03.rs) *)
-From RM Require Import C08.Model C03.Model C03.ArgModel.
+From RM Require Import C08.Model C03.Model C03.ArgModel C03.FetchModel.
 Open Scope Z_scope.
 
 Definition lim_z (l : limit) : Z := match l with Unlimited => -1 | Limited v => v end.
@@ -56,4 +56,15 @@ Definition run_args (name : list Z) : option (option (Z * list (list Z))) :=
   | Ret None => Some None
   | Ret (Some (cc, args)) => Some (Some (match cc with Cdecl => 0 | WindowsThisCall => 1 end, args))
   | _ => None
+  end.
+
+(* I cases: get_thread_instruction_bytes over the dump's regions (base, length; contents do not matter for the count).
+   Fact about the planted instruction pinned by the correspondence: it decodes iff all its L <= 15 bytes are there,
+   and only amd64 contexts are disassembled.  1 = decoded, 0 = not, 3 = panic *)
+Definition run_fetch (cpu : Z) (regs : list (Z * Z)) (ip l : Z) : Z :=
+  let rs := map (fun e => {| r_base := fst e; r_size := snd e; r_bytes := repeat 0 (Z.to_nat (snd e)) |}) regs in
+  match fetch_instruction_bytes Debug rs ip with
+  | Ret None => 0
+  | Ret (Some b) => if (cpu =? 0) && (l <=? Z.of_nat (length b)) && (l <=? MAX_INSTRUCTION_LENGTH) then 1 else 0
+  | _ => 3
   end.
